@@ -174,7 +174,7 @@ Proof.
 Qed.
 
 Lemma set_near_back t : set_near (k_near (t_kind t)) (set_near None t) = t.
-Proof. destruct t as [i n [nr d] ks]. reflexivity. Qed.
+Proof. destruct t as [i n [nr nk d] ks]. reflexivity. Qed.
 
 Lemma tids_set_near v t : tids (set_near v t) = tids t.
 Proof. destruct t. reflexivity. Qed.
